@@ -20,7 +20,7 @@ def run(chk):
         if v:
             chk.violation(v["sig"], v["desc"], dict(kind="panic"))
             return
-        raise vlib.MachineryError("C12 reject driver failed:\n" + t["out"][-3000:])
+        raise vlib.driver_failed("C12 reject driver failed", t["out"])
     r2 = json.load(open(resf))
     for v in r2["violations"] or []:
         chk.violation(v["sig"], v["desc"], dict(kind="c12-reject", detail=v))
